@@ -134,6 +134,25 @@ def confine(run, db, qual, zipped, center=None):
         run.check(center.replace(' ', '') in src, 'C18.confine', fi.qual, 'centre segment', 'the centre tile is masked by the centre mask in the centre window', 'centre segment composition changed', fi.loc())
 
 
+def separable_rules(run, db):
+    """optimize_xy_separable (used by the rectangle / offset circle / gaussian primitives): x stays the COLUMN coordinate and
+    y the ROW coordinate, for meshgrid input and for 1-D axis vectors."""
+    from ..core.interp import Interp
+    from ..domains.shape import ShapeDomain, Sh
+    f = db.func('prysm.coordinates.optimize_xy_separable')
+    for label, xin, yin, want in (('2-D meshgrids (M, N)', Sh(('M', 'N')), Sh(('M', 'N')), (('N',), ('M', 1))), ('1-D axis vectors (N,), (M,)', Sh(('N',)), Sh(('M',)), ((1, 'N'), ('M', 1)))):
+        dom = ShapeDomain({})
+        it = Interp(db, dom)
+        res = [p for p in it.run(f, kwargs=lambda: {'x': xin, 'y': yin}) if p.outcome == 'return']
+        if not res:
+            raise AnalysisError('optimize_xy_separable: no returning path (%s)' % label)
+        for p in res:
+            v = p.value
+            got = tuple(x_.dims if isinstance(x_, Sh) else None for x_ in v.items) if hasattr(v, 'items') and len(v.items) == 2 else None
+            run.check(got == want, 'C18.boundary', f.qual, 'separable axes: ' + label, 'x varies along the last axis (columns), y along the first (rows): shapes %s [%s]' % (want, label),
+                      'optimize_xy_separable returns shapes %s for %s, expected %s: x and y exchange roles (the masks of the primitives built on it come out transposed)' % (got, label, want), f.loc())
+
+
 def band_rules(run, db):
     """Keystone rings: the radial band of a ring is half-open, so that with zero radial gap a sample exactly on a shared ring
     radius belongs to one ring only."""
@@ -472,6 +491,7 @@ def check(run, db, tier):
     run.rule('C18.ids', 'segment ids: ring i is numbered after all 6(i-1)-ring ids whatever is excluded; ids and centres filtered together')
     run.group(ids_rules, run, db)
     run.group(mask_memo_rules, run, db)
+    run.group(separable_rules, run, db)
     run.rule('C18.band', 'keystone ring bands are half-open in the radius (no sample on a shared ring radius belongs to two rings)')
     run.group(band_rules, run, db)
     run.require_instances('C18.ids', 4)
